@@ -89,7 +89,12 @@ Verdict1(obs, R) ==
 VerdictE(obs, ast, input, binds, eng) ==
     LET v0 == Verdict1(obs, RunE(ast, input, binds, DefaultMd, eng))
     IN  IF v0 # "no" \/ ~Legit(obs) THEN v0
-        ELSE IF HasNull(input) THEN "inc:null in the input"
+        \* a null in the input: how null members take part in sort keys, predicates and transforms is left to the code (abstain) -
+        \* but null is a value (C10: "null, booleans, ..."; ErrUndefined "is reported only then"), so an evaluation whose
+        \* result is exactly the null value may not be reported as "no value"
+        ELSE IF HasNull(input) THEN
+             (LET R0 == RunE(ast, input, binds, DefaultMd, eng)
+              IN  IF obs.o = "undef" /\ ~IsNull(input) /\ R0.x = "ok" /\ IsNull(R0.r) THEN "no;null-reported-as-undefined" ELSE "inc:null in the input")   \* (a top-level null is "no input", as Eval(nil))
         ELSE LET vs == {Verdict1(obs, RunE(ast, input, binds, md, eng)) : md \in OpenMds}
                  incs == {v \in vs : v # "ok" /\ v # "no"}
              IN  IF "ok" \in vs THEN "ok" ELSE IF incs # {} THEN CHOOSE v \in incs : TRUE
